@@ -14,7 +14,9 @@ Read from the working tree on every run (AST node types are whitelisted, never s
         broadcast axes), `surface_x` (guarded padded angle, `linspace` list, mirrored concatenation, outer formula)
   pyroll/core/roll/roll.py            `surface_interpolation`: axes and transposition handed to `interpn` (shape check)
   pyroll/core/grooves/spline.py       end-ordinate validation, boundary stripping (shape check), centring term,
-                                      half width / width / usable width / depth terms, `interp1d` arguments
+                                      half width / width / usable width / depth terms, `interp1d` arguments, and what
+                                      happens to the identity of the array behind the local name `contour_points`
+                                      (asarray / slice = view / mask = fresh / copy / in-place write / store -> `ArrOp`)
   pyroll/core/roll_pass/hookimpls/symmetric_roll_pass.py   `entry_point`
 
 Output: lean/PyrollModel/Gen/C10.lean (namespace Gen.C10).  Everything outside the subset -> `ctx.tie_breaks`, and a
@@ -484,8 +486,10 @@ STRIP = ("contour_points = contour_points[np.logical_not((np.isclose(np.roll(con
 STRIP2 = [
     "inner = np.flatnonzero(np.logical_not(np.isclose(contour_points[:, 1], 0)))",
     "if inner.size:\n    contour_points = contour_points[inner[0] - 1:inner[-1] + 2]",
-    "contour_points = contour_points.copy()",
 ]
+# statements that give the local name an array of its own (ownership of the vertex array, `ArrOp.copy`)
+COPIES = ["contour_points = contour_points.copy()", "contour_points = np.copy(contour_points)",
+          "contour_points = np.array(contour_points)"]
 ENDS = ("if not np.isclose(contour_points[0, 1], 0) or not np.isclose(contour_points[-1, 1], 0):\n"
         "    raise ValueError('first and last element of contour_points should have y coordinate equal to 0')")
 INTERP1D = ("self._local_depth = scipy.interpolate.interp1d(contour_points[:, 0], contour_points[:, 1], "
@@ -493,7 +497,9 @@ INTERP1D = ("self._local_depth = scipy.interpolate.interp1d(contour_points[:, 0]
 
 
 def extract_spline(tree):
-    """-> dict(centre, half_width, width, usable_default, depth) as LTerm tuples; shape checks of the rest"""
+    """-> dict(centre, half_width, width, usable_default, depth) as LTerm tuples, `strip` kind, `array_ops` = what
+    happens to the identity of the array behind the local name `contour_points`, in statement order (`ArrOp` of the model:
+    asarray / view / select / copy / write / store); shape checks of the rest"""
     cls = _cls(tree, "SplineGroove")
     init = _method(cls, "__init__")
     body = _body(init)
@@ -502,9 +508,18 @@ def extract_spline(tree):
     tr = _LTr()
     seen = set()
     strip2 = 0
+    ops = []
     for st in body:
         if _same(st, "contour_points = np.asarray(contour_points, dtype='float64')"):
+            if ops:
+                raise Gap("spline: asarray is not the first statement on contour_points")
             seen.add("asarray")
+            ops.append("asarray")
+            continue
+        if any(_same(st, c) for c in COPIES):
+            if "asarray" not in seen:
+                raise Gap("spline: copy before asarray")
+            ops.append("copy")
             continue
         if isinstance(st, ast.If) and isinstance(st.test, ast.Compare) and "contour_points" in ast.unparse(st.test) \
                 and ("ndim" in ast.unparse(st.test) or "shape" in ast.unparse(st.test)) \
@@ -520,6 +535,7 @@ def extract_spline(tree):
                 raise Gap("spline: stripping after centring")
             seen.add("strip")
             out["strip"] = "bothNeighbours"
+            ops.append("select")
             continue
         k2 = next((k for k, src in enumerate(STRIP2) if _dump(st) == _dump(ast.parse(src).body[0])), None)
         if k2 is not None:
@@ -529,11 +545,13 @@ def extract_spline(tree):
             if strip2 == len(STRIP2):
                 seen.add("strip")
                 out["strip"] = "faceRuns"
+                ops.append("view")
             continue
         if isinstance(st, ast.AugAssign) and isinstance(st.op, ast.Sub) and _col_of(st.target, "contour_points") == 0:
             if "centre" in out or "strip" not in seen:
                 raise Gap("spline: centring order")
             out["centre"] = tr.tr(st.value)
+            ops.append("write")
             continue
         if isinstance(st, ast.Assign) and len(st.targets) == 1:
             tg = ast.unparse(st.targets[0])
@@ -553,6 +571,7 @@ def extract_spline(tree):
                 if ast.unparse(st.value) != "contour_points" or "centre" not in out:
                     raise Gap("spline: _contour_points")
                 seen.add("points")
+                ops.append("store")
                 continue
             if tg in ("self._contour_line", "self._cross_section", "self._classifiers"):
                 continue
@@ -581,6 +600,7 @@ def extract_spline(tree):
         m = _method(cls, prop)
         if not (len(_body(m)) == 1 and _same(_body(m)[0], f"return self.{attr}")):
             raise Gap(f"spline: property {prop}")
+    out["array_ops"] = ops
     return out
 
 
@@ -755,12 +775,15 @@ def emit(ctx):
         for k in ("centre", "half_width", "width", "usable_default", "depth"):
             L.append(f"def spline_{k} : LTerm := {lean_lterm(sp[k])}")
         L.append(f"def spline_strip : StripKind := .{sp['strip']}")
+        L.append("/-- what happens to the array behind the local name `contour_points`, in statement order -/")
+        L.append("def spline_array_ops : List ArrOp := [" + ", ".join("." + o for o in sp["array_ops"]) + "]")
         L.append("def spline_shape_ok : Bool := true")
     except Gap as ex:
         gap(f"{SP}: {ex}")
         for k in ("centre", "half_width", "width", "usable_default", "depth"):
             L.append(f"def spline_{k} : LTerm := (.nat 0)")
         L.append("def spline_strip : StripKind := .bothNeighbours")
+        L.append("def spline_array_ops : List ArrOp := []")
         L.append("def spline_shape_ok : Bool := false")
     L.append("")
     L.append("/-- closed formulas by name (for the Float evaluation driver) -/")
